@@ -20,7 +20,7 @@ def Suit.unknown : Suit := 4
 structure Card where
   rank : Rank
   suit : Suit
-deriving DecidableEq, Repr, BEq, Hashable, Inhabited
+deriving DecidableEq, Repr, Hashable, Inhabited
 
 namespace Card
 
